@@ -5,6 +5,8 @@ import XzVerif.Proofs.Select
 import XzVerif.Proofs.XzW
 import XzVerif.Proofs.HashTable
 import XzVerif.Proofs.BinTree
+import XzVerif.Proofs.LazyXz
+import XzVerif.Proofs.Fuel
 /-
   C01 — xz write→read round trip is lossless for every input and configuration.
 
@@ -183,5 +185,70 @@ theorem C01_init_table_ok (lc lp : Nat) : (initTable lc lp).ok := by
 example : OpsOk {} { out := ByteArray.empty, dictStart := 0, cap := 4096 }
     [.lit 97, .lit 98, .mtch 2 1, .rep 0 3, .shortRep] := by
   repeat (first | exact OpsOk.nil _ _ | (refine OpsOk.cons _ _ _ _ ?_ ?_) | (refine ⟨?_, ?_⟩) | decide)
+
+/-! ### write → read with BOTH sides at the level the code runs
+
+  The writer model (`XzW.run`, tied byte for byte to the real `xz.Writer`) followed by the LAZY xz reader model
+  (`Model/LazyXz.lean`: reader.go as it runs, ring level, tied per call to the real `xz.Reader`): for every valid
+  configuration, every partition into Write calls, both match finder models, every reader capacity the header covers and
+  EVERY schedule of Read buffer lengths asking for more than the data, the reader opens the stream and delivers exactly
+  the bytes written, followed by `io.EOF`. -/
+
+/-- NewReader of the lazy model never fails with the clean-end value -/
+theorem lazyxz_newReader_not_eof (cfgCap : Nat) (single : Bool) (inp : ByteArray) :
+    LazyXz.newReader cfgCap single inp ≠ .error .eof := by
+  intro hn
+  unfold LazyXz.newReader LazyXz.newStreamReader at hn
+  split at hn
+  · cases hn
+  · cases hh : Xz.readStreamHeader inp 0 with
+    | cleanEnd => rw [hh] at hn; simp at hn
+    | padding => rw [hh] at hn; simp [LazyXz.oerr] at hn
+    | ok flags => rw [hh] at hn; simp at hn
+    | fail st0 =>
+      rw [hh] at hn
+      have hne := LazyXz.rsh_fail_ne inp 0 st0 hh
+      cases st0 with
+      | eof => exact hne rfl
+      | unexpectedEOF => simp [LazyXz.ofStatus] at hn
+      | err w => simp [LazyXz.ofStatus] at hn
+
+open LazyDec in
+/-- when the batch reader decodes `inp` cleanly to `content`, the lazy xz reader opens it and delivers exactly `content`
+    followed by `io.EOF`, under every schedule asking for more than `content` -/
+theorem lazyxz_of_batch (cfgCap : Nat) (hcfg : cfgCap = 0 ∨ (4096 ≤ cfgCap ∧ cfgCap ≤ 2 ^ 32 - 1)) (inp content : ByteArray)
+    (hst : (Xz.read false cfgCap false inp).status = .eof) (hout : (Xz.read false cfgCap false inp).out = content)
+    (lens : List Nat) (hsum : content.size < lens.sum) :
+    ∃ x, LazyXz.newReader cfgCap false inp = .ok x ∧ LazyXz.lastStat (LazyXz.readSeq x lens) = .eof ∧
+      delivered (LazyXz.readSeq x lens) = content := by
+  have hb : LazyXz.batch cfgCap false inp = Xz.read false cfgCap false inp := rfl
+  cases hn : LazyXz.newReader cfgCap false inp with
+  | error st =>
+    have h1 := (LazyXz.newReader_err cfgCap hcfg false inp st hn).1
+    rw [hb, hst] at h1
+    cases st with
+    | ok => simp [LazyXz.statusOfR, Lzma.Status.cls] at h1
+    | eof => exact absurd hn (lazyxz_newReader_not_eof cfgCap false inp)
+    | err e => cases e <;> simp [LazyXz.statusOfR, statusOf, Lzma.Status.cls] at h1
+  | ok x =>
+    have hclean : (LazyXz.batch cfgCap false inp).status = .eof := by rw [hb]; exact hst
+    have hbo : (LazyXz.batch cfgCap false inp).out = content := by rw [hb]; exact hout
+    have heof := LazyXz.reaches_eof cfgCap false inp x hn lens hclean (by rw [hbo]; exact hsum)
+    have hf : (LazyXz.batch cfgCap false inp).status ≠ .err "fuel exhausted" := by
+      rw [hclean]; intro hh; cases hh
+    exact ⟨x, rfl, heof, by rw [(LazyXz.eof_complete cfgCap false inp x hn lens hf heof).2, hbo]⟩
+
+theorem C01_roundtrip_lazy_reader {σ : Type} (c : XzW.Cfg) (hc : XzW.CfgOk c) (M : W2.Matcher σ)
+    (I : σ → ByteArray → ByteArray → Prop) (hI : W2.MatcherInv c.w2 M I) (m0 : σ) (h0 : I m0 ByteArray.empty ByteArray.empty)
+    (writes : List ByteArray) (hsize : (XzW.written writes).size < 2 ^ 40)
+    (hblocks : (XzW.split c.blockSize writes).length < 2 ^ 28)
+    (cfgCap : Nat) (hcap : cfgCap ≤ Xz.dictSize (Model.encodeDictCap c.w2.dictCap))
+    (hcfg : cfgCap = 0 ∨ (4096 ≤ cfgCap ∧ cfgCap ≤ 2 ^ 32 - 1))
+    (lens : List Nat) (hsum : (XzW.written writes).size < lens.sum) :
+    ∃ x, LazyXz.newReader cfgCap false (XzW.run c M m0 writes) = .ok x ∧
+      LazyXz.lastStat (LazyXz.readSeq x lens) = .eof ∧
+      LazyDec.delivered (LazyXz.readSeq x lens) = XzW.written writes := by
+  obtain ⟨hst, hout⟩ := XzW.xz_writer_roundtrip false c hc M I hI m0 h0 writes hsize hblocks cfgCap (fun _ => hcap)
+  exact lazyxz_of_batch cfgCap hcfg _ _ hst hout lens hsum
 
 end Props.C01
